@@ -108,7 +108,7 @@ def run(ctx):
     warnings.simplefilter("ignore")
     rng = ctx.rng
     check_pyset_model(ctx, rng)
-    ntrees = ctx.n(70, 900)
+    ntrees = ctx.n(70, 600)
     cases, records = [], []
     sens_terms = []
 
@@ -210,10 +210,18 @@ def run(ctx):
 
     for ti in range(ntrees):
         inputs, output, size_dict, feats = ordinary_net(rng, ctx.quick)
-        if rng.random() < 0.5:
+        r = rng.random()
+        if r < 0.5:
             # strip dangling indices so that half of the networks are "graphs, hyper-edges, output indices" only
             d = dangling(inputs, output)
             inputs = [tuple(ix for ix in t if ix not in d) for t in inputs]
+            feats = gen.net_features(inputs, output, size_dict)
+        elif r < 0.65:
+            # deliberately hang a summed index on one tensor (finding compressed-flops-dangling-index)
+            s = gen.SYMS[len(size_dict)]
+            size_dict[s] = rng.randint(2, 3)
+            k = rng.randrange(len(inputs))
+            inputs = [tuple(list(t) + [s]) if i == k else t for i, t in enumerate(inputs)]
             feats = gen.net_features(inputs, output, size_dict)
         path = gen.rand_path(rng, len(inputs))
         for f in feats:
